@@ -552,7 +552,7 @@ class Box(Arrow):
                 {var for var, _ in args[0]} if len(args) == 1 else {args[0]})):
             return self
         return type(self)(
-            self.name, self.dom, self.cod, _dagger=self._dagger,
+            name=self.name, dom=self.dom, cod=self.cod, _dagger=self._dagger,
             data=rsubs(self.data, *args))
 
     def lambdify(self, *symbols, **kwargs):
@@ -560,7 +560,7 @@ class Box(Arrow):
             return lambda *xs: self
         from sympy import lambdify
         return lambda *xs: type(self)(
-            self.name, self.dom, self.cod, _dagger=self._dagger,
+            name=self.name, dom=self.dom, cod=self.cod, _dagger=self._dagger,
             data=lambdify(symbols, self.data, **kwargs)(*xs))
 
     @property
